@@ -379,15 +379,17 @@ class _FPCoreCompileInstance(Visitor):
 
     def _visit_range3(self, start: Expr, stop: Expr, step: Expr, ctx: None) -> fpc.Expr:
         # range(start, stop, step) =>
-        # (tensor ([i (! :precision integer (ceil (/ (- stop start) step)))])
+        # (tensor ([i (! :precision integer (ceil (! :precision real (/ (- stop start) step))))])
         #   (! :precision integer (+ (* i step) start)))
+        # -- the quotient is exact: rounded to an integer first, 5/2 is 2 and
+        # `range(0, 5, 2)` loses its last element
         tuple_id = str(self.gensym.fresh('i'))
         start_expr = self._visit_expr(start, ctx)
         stop_expr = self._visit_expr(stop, ctx)
         step_expr = self._visit_expr(step, ctx)
         return fpc.Tensor(
             [(tuple_id, fpc.Ctx({ 'precision': 'integer' },
-                fpc.Ceil(fpc.Div(fpc.Sub(stop_expr, start_expr), step_expr))))],
+                fpc.Ceil(fpc.Ctx({ 'precision': 'real' }, fpc.Div(fpc.Sub(stop_expr, start_expr), step_expr)))))],
             fpc.Ctx({ 'precision': 'integer' },
                 fpc.Add(fpc.Mul(fpc.Var(tuple_id), step_expr), start_expr))
         )
